@@ -266,7 +266,7 @@ def model_table(drv_lines_runner, hdr, cols, rows):
     return f"T {al} {nc} {nrows} {nonempty} " + " ".join(map(str, counts))
 
 
-# ----------------------------------------------------------------------------- premise of Parse_valid_partial2
+# ----------------------------------------------------------------------------- the report Parse_valid_corollaries (third clause) is about
 CELL_DOCS = ["| a\\ |\n|---|\n| b  |\n", "| a |\n|---|\n| b\\\n", "| a  \n|---|\n| b\\", "| a |\r|---|\r| b\\ |\r| c  |\r\n", "x | y\n--|--\n1 | 2\\\n3 | 4  \n",
              "| &#10; |\n|---|\n| &#13; x |\n", "| <a\nb> |\n|---|\n", "|a|\n|-|\n|`x\n", "- | a\\ |\n  |---|\n  | b  |\n", "> | a |\n> |---|\n> | b\\\n> c\n",
              "[^1]: | a |\n      |---|\n      | x[^1]\\ |\n\ny[^1]\n", "p\nq | r\\\n--|--\ns  \n", "| a \\| b\\ |\n|---|\n", "||a\\||\n|-|\n||b  ||\n"]
@@ -274,7 +274,9 @@ CELL_DOCS = ["| a\\ |\n|---|\n| b  |\n", "| a |\n|---|\n| b\\\n", "| a  \n|---|\
 
 def model_report(c, rng, n):
     """driver op `pvalid` = Spec/ParseValidSpec.v parse_valid_report on generated documents: `ok 1 1` expected everywhere
-    (premise bcells_ok holds; structurally_valid holds of the tree parse_document_model returns).  The oracle of a
+    (bcells_ok holds of the block tree: Parse_cells_blocks; structurally_valid holds of the tree parse_document_model
+    returns: Parse_valid; together Props/ParseValid.v Parse_valid_corollaries - another answer means the extracted code and the theorem
+    disagree).  The oracle of a
     document is asked from the compiled library (harness op parseu), as in parse_tie."""
     from checks import parse_tie
     docs = list(CELL_DOCS) + list(COMBO_DOCS)
@@ -306,12 +308,12 @@ def model_report(c, rng, n):
             continue
         case = {"doc": hx(md), "opts": o, "line": line[:4000]}
         if m == "ok 0 1" or m == "ok 0 0":
-            c.problem("proof", "Parse_valid_partial2.premise", f"bcells_ok is FALSE of the block tree of the parser model (a TableCell content holds CR / LF): `{m}` - the premise of "
-                      f"Parse_valid_partial2 fails for this document" + ("; the final tree is NOT structurally valid" if m.endswith("0") else ""), case)
+            c.problem("proof", "Parse_cells_blocks", f"bcells_ok is FALSE of the block tree of the parser model (a TableCell content holds CR / LF): `{m}` - contradicts "
+                      f"Parse_cells_blocks for this document" + ("; the final tree is NOT structurally valid (contradicts Parse_valid)" if m.endswith("0") else ""), case)
         else:
-            c.problem("proof", "Parse_valid_report", f"driver pvalid answers `{m[:200]}` (premise true, conclusion false contradicts Parse_valid_report_sound)", case)
-    c.cov["spec_checks"]["model trees (parse_document_model): premise bcells_ok of Parse_valid_partial2 holds and Spec.Valid.structurally_valid holds (driver op pvalid)"] = len(jobs)
-    c.cov["model_report"] = {"cases": len(jobs), "answers": tally, "expected": "ok 1 1 (premise bcells_ok, structurally_valid)"}
+            c.problem("proof", "Parse_valid_report", f"driver pvalid answers `{m[:200]}` (contradicts Parse_valid_corollaries)", case)
+    c.cov["spec_checks"]["model trees (parse_document_model): bcells_ok of the block tree (Parse_cells_blocks) and Spec.Valid.structurally_valid of the final tree (Parse_valid) hold (driver op pvalid)"] = len(jobs)
+    c.cov["model_report"] = {"cases": len(jobs), "answers": tally, "expected": "ok 1 1 (bcells_ok, structurally_valid)"}
 
 
 # ----------------------------------------------------------------------------- main
@@ -338,8 +340,9 @@ def main(tier):
     # the FINAL tree: Parse_valid_partial / Parse_shape (Props/Parse.v) about Model/Parse.v parse_document_model, the whole
     # parser as one function, tied end to end to parse_document here
     layerc.whole(c, tier, 0.2 if quick else 0.5)
-    # Parse_valid_partial2 (Props/Parse.v): structurally_valid of the final tree under the premise bcells_ok (no CR / LF in
-    # the content of a TableCell of the block tree).  Premise and conclusion are evaluated on the MODEL's own trees
+    c.phase_proofs("ParseValid")   # Parse_cells_scanner, Parse_valid_corollaries: what follows from Parse_valid without premise
+    # Parse_valid (Props/Parse.v): structurally_valid of the final tree; Parse_cells_blocks: no CR / LF in the content of a
+    # TableCell of the block tree.  Both are evaluated on the MODEL's own trees (Props/ParseValid.v Parse_valid_corollaries, third clause)
     model_report(c, rng, 300 if quick else 6000)
 
     # ---- tables at the auto-completion cap (500000 cells): every row the parser keeps has exactly |alignments| cells
@@ -498,9 +501,9 @@ def main(tier):
     if recs:
         c.cov["samples"].append({"doc": recs[0].doc[:200], "opts": docgen.opts_token(recs[0].opts), "validator": recs[0].valid, "model": mm.get(id(recs[0]), "-")})
     c.cov["partial_clauses"] = [
-        "`forall input options, structurally_valid (parse options input)` is proved up to one premise: Model/Parse.v parse_document_model is the whole parser as one Coq function (tied end to end, correspondence parser.whole); Props/Parse.v Parse_valid_partial2 proves Spec.Valid.structurally_valid of every tree it returns (containment at every edge above AND below the leaves - Parse_inline_forest_valid, Parse_post_forest_valid: Link / Image / Emph / WikiLink / ... accept their children, literal kinds have none; footnote pass, task-list effects and the second attach preserve it - root, heading levels, lists, table shape and the column-count equation) PROVIDED the content of every TableCell of the block tree holds neither CR nor LF (Spec/ParseValidSpec.v bcells_ok: a TableCell accepts every inline kind but SoftBreak / LineBreak, which the inline parser makes exactly at a CR / LF); Parse_valid_no_table proves it without premise when extension.table is off; NOT proved (Parse_valid_full_statement): the premise for every input, i.e. that table.rs::row cuts cells free of line ends out of one line (the class of scanners::table_cell excludes CR and LF) and that the block phase never appends a line to a TableCell - premise and conclusion are evaluated on the model's trees of generated documents in this run (driver op pvalid), and validate() on every tree the real parser returns",
+        "`forall input options, structurally_valid (parse options input)` is a THEOREM about the whole parser model, for the runs that return Ok: Model/Parse.v parse_document_model is the whole parser as one Coq function (tied end to end, correspondence parser.whole); Props/Parse.v Parse_valid (= Parse_valid_full_statement) proves Spec.Valid.structurally_valid of every tree it returns, no premise (containment at every edge above AND below the leaves - Parse_inline_forest_valid, Parse_post_forest_valid: Link / Image / Emph / WikiLink / ... accept their children, literal kinds have none; footnote pass, task-list effects and the second attach preserve it - root, heading levels, lists, table shape and the column-count equation); the former premise is proved for every input: Props/ParseValid.v Parse_cells_scanner / Parse_cells_row (the prefix scanners::table_cell returns, both spoiler settings, holds neither CR nor LF, so every cell table.rs::row cuts is free of them) and Parse_cells_blocks (the block phase never puts a line end into a TableCell: add_line only reaches a Paragraph, Heading, CodeBlock or HtmlBlock; identifiers are fresh); corollaries Props/ParseValid.v Parse_valid_corollaries (the validator model accepts every tree, the HTML and XML renderer models return Ok on it, the report answers (true, true)). NOT proved: that the model returns Ok for every input (totality of the block phase is Props/Blocks.v Blocks_total_full_statement, of the inline phase Props/Inlines.v) - a run of the model that panics or runs out of fuel is outside the statement; the report (bcells_ok, structurally_valid) is still evaluated on the model's trees of generated documents in this run (driver op pvalid: any answer but `ok 1 1` now contradicts a theorem), and validate() on every tree the real parser returns",
         "the formatter clause is proved for the HTML and XML renderer models (valid, S2, S3 => Ok); for the CommonMark formatter it is observed only (no panic on any parser tree of this run)",
-        "table builder: the arithmetic of try_opening_header / try_opening_row is modelled and proved; cell splitting (fn row) enters as a parameter",
+        "table builder (Props/C04.v): the arithmetic of try_opening_header / try_opening_row is modelled and proved with cell splitting (fn row) as a parameter; in the whole-parser model (Model/Blocks.v) fn row is transcribed and Parse_cells_row is about it",
         "links: see C04_links (acyclicity is not implied by link consistency)"]
     c.assumptions += ["Gen/Nodes.v is generated from nodes.rs and compared exhaustively with the compiled can_contain_type on every run",
                       "the harness' tree dump (harness/src/tree.rs) and the driver's tree reader (ocaml/d_0tree.ml) are trusted to transport the tree"]
